@@ -145,6 +145,65 @@ func genC19(e *emitter, tier string, seed uint64) map[string]interface{} {
 			e.fail(idx, "ids_distinct_concurrent", bad)
 		}
 	}
+	// a context whose PARENT is itself a protocol context (a gateway hands the accepted connection's context to the dial of its upstream
+	// connection; a per-request child context): the new connection context is a connection context of its own — its ids start at 1 and
+	// neither side's traffic shows in the other's ids, sequentially and with both in use at the same time
+	for round := 0; round < 3; round++ {
+		parent := protocol.NewContext(context.Background(), protocol.ServerSide)
+		for i := 0; i < 3+round; i++ {
+			_, _ = protocol.NewRequest(parent, 1, []byte{})
+		}
+		child := protocol.NewContext(parent, protocol.ClientSide)
+		grand := protocol.NewContext(child, protocol.ClientSide)
+		bad := ""
+		for i := 1; i <= 5 && bad == ""; i++ {
+			a, _ := protocol.NewRequest(child, 1, []byte{})
+			b := protocol.MustNewRequest(parent, 1, []byte{})
+			c, _ := protocol.NewRequest(grand, 1, []byte{})
+			if int(a.Metadata.RequestId) != i || int(b.Metadata.RequestId) != 3+round+i || int(c.Metadata.RequestId) != i {
+				bad = fmt.Sprintf("contexts created with another protocol context as parent: request %d on the child got id %d, on the grandchild id %d (want %d on both), the parent's next request id %d (want %d)", i, a.Metadata.RequestId, c.Metadata.RequestId, i, b.Metadata.RequestId, 3+round+i)
+			}
+		}
+		if bad == "" {
+			const G, M = 4, 500
+			var wg sync.WaitGroup
+			got := make([][]uint32, 2*G)
+			for g := 0; g < 2*G; g++ {
+				wg.Add(1)
+				go func(g int) {
+					defer wg.Done()
+					ctx := parent
+					if g%2 == 1 {
+						ctx = child
+					}
+					for i := 0; i < M; i++ {
+						pk, _ := protocol.NewRequest(ctx, 1, []byte{})
+						got[g] = append(got[g], pk.Metadata.RequestId)
+					}
+				}(g)
+			}
+			wg.Wait()
+			for side, base := range []int{3 + round + 5, 5} {
+				all := []int{}
+				for g := side; g < 2*G; g += 2 {
+					for _, id := range got[g] {
+						all = append(all, int(id))
+					}
+				}
+				sort.Ints(all)
+				for i, id := range all {
+					if id != base+i+1 {
+						bad = fmt.Sprintf("parent and child context used by %d goroutines each: the ids of %s are not %d..%d (position %d holds %d)", G, []string{"the parent", "the child"}[side], base+1, base+G*M, i, id)
+						break
+					}
+				}
+			}
+		}
+		idx := e.op(fmt.Sprintf("ids.note derived-contexts round=%d", round), "ok", "derived-contexts", true)
+		if bad != "" {
+			e.fail(idx, "contexts_independent", bad)
+		}
+	}
 	// the same with an option slice that the goroutines SHARE (read-only for them) and that has spare capacity: a constructor that appends its
 	// own option to the caller's slice writes into that shared spare element, and a call can pick up another call's id
 	for _, gm := range [][2]int{{4, 2000}, {16, 2000}} {
